@@ -101,9 +101,12 @@ def check_read(ctx, label, m, d):
     for i, r in enumerate(lh):
         ctx.observe("hit%d.t" % i, r[1])
     bt = col(m.bpms.df, "offset")
+    prev = d["bpm0"]
     for j, (pos, v) in enumerate(d["tempo"]):
         t = ref.ms_of(ctx, d, pos)
-        ctx.check("%s.tempo-event%d.is-a-tempo-point" % (label, j), ctx.any(*[ctx.within(x, t, (x + t + 1) * rel, strict=False) for x in bt]))
+        # (an event that repeats the tempo already active is not a change: it may be absent)
+        ctx.check("%s.tempo-event%d.is-a-tempo-point" % (label, j), ctx.any(ctx.eq(v, prev), *[ctx.within(x, t, (x + t + 1) * rel, strict=False) for x in bt]))
+        prev = v
     ctx.check(label + ".tempo.starts-at-0", ctx.any(*[ctx.eq(x, 0) for x in bt]))
     # the tempo active at every object is the file's
     bpms = sorted(zip(bt, col(m.bpms.df, "bpm")), key=lambda p: 0) if False else list(zip(bt, col(m.bpms.df, "bpm")))
